@@ -137,7 +137,9 @@ def generate(rng, tier, idx):
     target = None
     if mode != 'none':
         deep = [p for p in files if files[p] != 'Manifest'] or list(files)
-        kind = rng.choice(['change', 'change', 'add', 'remove', 'dist'])
+        kind = rng.choice(['change', 'change', 'add', 'remove', 'dist', 'remove-manifest'])
+        if kind == 'remove-manifest' and not [p_ for p_ in files if files[p_] != 'Manifest']:
+            kind = 'remove'
         if kind == 'dist' and not [n for n, mp in dists.items() if mp != 'Manifest']:
             kind = 'change'
         if kind == 'dist':
@@ -163,13 +165,22 @@ def generate(rng, tier, idx):
                 muts.append({'m': 'add', 'p': np_, 'k': 'file', 'c': 'evil new file'})
                 new_entries = manifests[gov] + [{'tag': 'DATA', 'path': os.path.relpath(np_, gd or '.'), 'hashes': ['SHA256']}]
                 target = np_
+            elif kind == 'remove-manifest':
+                # the file disappears together with the sub-Manifest that listed it; everything above stays as it was
+                muts.append({'m': 'delete', 'p': p})
+                muts.append({'m': 'delete', 'p': gov})
+                new_entries = manifests[gov]
+                target = p
             else:
                 muts.append({'m': 'delete', 'p': p})
                 rel = os.path.relpath(p, gd or '.')
                 new_entries = [e for e in manifests[gov] if not (e.get('path') == rel and e['tag'] != 'DIST')]
                 target = p
         ch = chain_up(gov)
-        if mode == 'full' or len(ch) == 1:
+        if kind == 'remove-manifest':
+            j = 0
+            mode = 'tamper'
+        elif mode == 'full' or len(ch) == 1:
             j = len(ch)
         else:
             j = rng.randrange(1, len(ch))
